@@ -111,7 +111,7 @@ def m_concat(eng, st, fr, t, name, rname, args):
 def m_vec_as_slice(eng, st, fr, t, name, rname, args):
     b = M._bytes_of(eng, st, args[0])
     if b is None:
-        return NotImplemented
+        return m_deref_list(eng, st, fr, t, name, rname, args)
     v = eng.resolve(st, args[0])
     return v if isinstance(v, RefV) else sl(b)
 
@@ -127,6 +127,7 @@ def engine(extra=None, loop_limit=150):
         "core::ops::Deref::deref": M._or(m_deref_list, m_vec_as_slice),
         "alloc::slice::concat": m_concat,
         "alloc::vec::Vec::as_slice": m_vec_as_slice,
+        "arrayvec::ArrayVec::as_slice": m_vec_as_slice,
         "arrayvec::ArrayVec::iter": M.LIST_MODELS["core::slice::iter"],
         "alloc::vec::Vec::iter": M.LIST_MODELS["core::slice::iter"],
         "arrayvec::ArrayVec::len": M.LIST_MODELS["core::slice::len"],
